@@ -252,6 +252,19 @@ CHECKS = {
                 "alignment caches use the same pattern but are not recorded; more than 4 processes and OS-level scheduling inside a write are outside.",
         "design": "3 C20",
     },
+    "C07": {
+        "engine": "z3-trace",
+        "technique": "z3 over the crash index of a file-system event trace recorded from the real function; crash points replayed by really killing and resuming the stage",
+        "text": "Engine C for the read-collection stage of one chromosome: the open/write/flush/close/lock event trace of the real "
+                "collect_reads_in_parallel (real TmpFileAssignmentPrinter, group dump, EnumStats; fake pysam/Fasta/AlignmentCollector feeding real "
+                "ReadAssignments) is recorded on every run; with the crash index k a z3 integer and buffered data durable only from the next "
+                "flush/close of their handle, z3 decides 'lock visible at k => every written file is complete at k'. A crash index found is "
+                "replayed for real (subprocess killed with os._exit at that event, second process resumes); when the query is unsat the model is "
+                "validated by really killing and resuming at 5 (quick) / all (thorough) crash points and comparing with the uninterrupted result.",
+        "note": "Only this stage is claimed. Model construction, merging, clean-up, parameter reloading from .params and the final equality of all "
+                "output files after a resume are NOT covered; power loss is not modelled (process death only).",
+        "design": "3 C07",
+    },
 }
 
 NOT_BUILT = "check not built yet (build in progress, see DESIGN.md section 5); no claim is made"
